@@ -197,3 +197,62 @@ func VerifC14Serve(k1, k2, k3, peers int) {
 	}
 	verifReach("end")
 }
+
+// verifManyConn: n datagrams, then (all reads done) the handlers are released and reading fails.
+type verifManyConn struct {
+	verifConn
+	release chan struct{}
+}
+
+func (c *verifManyConn) ReadFrom(b []byte) (int, net.Addr, error) {
+	if c.closes == 0 && c.pos >= len(c.script) {
+		close(c.release)
+	}
+	return c.verifConn.ReadFrom(b)
+}
+
+// VerifC14Many: a long sequence: n valid packets from senders without IP address on distinct ports
+// (identified by a concrete transaction id, option value symbolic), whose handlers all block until
+// every datagram has been read; each must be dispatched exactly once with its own message and
+// with the limited broadcast address and the sender's port as peer, and Serve must return.
+func VerifC14Many(n int) {
+	conn := &verifManyConn{release: make(chan struct{})}
+	vals := make([][]byte, n)
+	for i := 0; i < n; i++ {
+		peer := &net.UDPAddr{Port: 1000 + i}
+		if i%2 == 1 {
+			peer.IP = net.IP{0, 0, 0, 0}
+		}
+		vals[i] = verifBytes("val", 2)
+		p := &dhcpv4.DHCPv4{OpCode: dhcpv4.OpcodeBootRequest, HWType: 1, TransactionID: dhcpv4.TransactionID{0, 0, byte(i >> 8), byte(i)},
+			ClientHWAddr: net.HardwareAddr{2, 0, 0, 0, 0, 1}, Options: dhcpv4.Options{53: []byte{1}, 61: vals[i]}}
+		conn.script = append(conn.script, verifRead{data: p.ToBytes(), peer: peer})
+	}
+	var calls []verifCallRec
+	s := &Server{conn: conn, logger: EmptyLogger{}, Handler: func(c net.PacketConn, peer net.Addr, m *dhcpv4.DHCPv4) {
+		<-conn.release
+		calls = append(calls, verifCallRec{c, peer, m})
+	}}
+	err := s.Serve()
+	verifSettle()
+	verifAssert(err == errVerifRead, "serve-returns-read-error")
+	verifAssert(conn.pos == len(conn.script), "every-datagram-was-read")
+	verifAssert(len(calls) == n, "handler-invoked-exactly-once-per-valid-datagram")
+	verifObserveInt("dispatched", len(calls))
+	seen := make([]bool, n)
+	for _, c := range calls {
+		i := int(c.m.TransactionID[2])<<8 | int(c.m.TransactionID[3])
+		if i >= n || seen[i] {
+			verifAssert(false, "handler-invoked-exactly-once-per-valid-datagram")
+			continue
+		}
+		seen[i] = true
+		up, isUDP := c.peer.(*net.UDPAddr)
+		verifAssert(isUDP, "peer-is-a-udp-address")
+		if isUDP {
+			verifAssert(verifSame(up.IP.To4(), []byte{255, 255, 255, 255}) && up.Port == 1000+i, "handler-got-the-decoded-message-and-the-sender-as-peer")
+		}
+		verifAssert(verifSame(c.m.Options[61], vals[i]), "handler-got-the-decoded-message-and-the-sender-as-peer")
+	}
+	verifReach("end")
+}
